@@ -38,6 +38,9 @@ func walkCases(tier string, seed int64, div int) []fw.Case {
 		l = mkCases(l, "playout", 32, seed, pick(tier, 25, 2500/div))
 		l = mkCases(l, "tactic", 16, seed, pick(tier, 100, 5000/div))
 		l = mkCases(l, "shared", 8, seed, pick(tier, 12, 1200/div))
+		if div == 1 {
+			l = mkCases(l, "boardplay", 16, seed, pick(tier, 120, 6000))
+		}
 		return l
 	}
 }
@@ -50,7 +53,7 @@ func init() {
 		Level:     "exploration",
 		Technique: "runtime differential oracle: lock-step tree walk (differential perft) and random playouts against an independent mailbox rules implementation",
 		Rule: "every node of full legal game trees (curated roots incl. the six published perft positions, depth 2-3 quick / 3-4 thorough; synthetic odd-material roots depth 1-2), " +
-			"every ply of random playouts and 14 constructed tactical shapes (pins, double check, e.p. exposing the king along the rank or a diagonal, castling under attack ...); shared: walks repeated after each of the four engines' searches/filters ran in the same process (package-level piece lists compared with their start-up contents); at each node the legal (from,to,promotion) multiset and each move's kind/piece/capture are compared with the oracle; distinct = distinct position keys (placement, side, rights, e.p.)",
+			"every ply of random playouts and 14 constructed tactical shapes (pins, double check, e.p. exposing the king along the rank or a diagonal, castling under attack ...); boardplay: games played on a game board, at every ply the moves Board.PushMove accepts vs the oracle (incl. plies right after an e.p. capture that gives check); shared: walks repeated after each of the four engines' searches/filters ran in the same process (package-level piece lists compared with their start-up contents); at each node the legal (from,to,promotion) multiset and each move's kind/piece/capture are compared with the oracle; distinct = distinct position keys (placement, side, rights, e.p.)",
 		Assumptions: []string{"reference rules implementation (package ref), validated against published perft numbers at start-up", "2^-64 hash collisions in the distinct-position counter ignored"},
 		Setup:       validateOracle,
 		Timeout:     minutes(10, 90),
@@ -59,7 +62,7 @@ func init() {
 			return map[string]int64{
 				"positions": 20000, "in_check": 500, "double_check": 5, "pinned_piece_positions": 100,
 				"ep_legal": 20, "ep_illegal_by_check": 1, "castle_legal": 50, "castle_blocked_by_attack": 10,
-				"promotions": 100, "capture_promotions": 20, "stalemate": 1, "checkmate": 1, "perft_checks": 18, "shared_walks": 100, "shared_roots_with_ep": 3, "shared_roots_with_promotion": 3,
+				"promotions": 100, "capture_promotions": 20, "stalemate": 1, "checkmate": 1, "perft_checks": 18, "shared_walks": 100, "shared_roots_with_ep": 3, "shared_roots_with_promotion": 3, "board_plies": 20000, "board_plies_after_ep": 100, "board_plies_in_check_after_ep": 20,
 			}
 		},
 		Run: func(c *fw.Ctx, cs fw.Case) { runWalk(c, cs, false) },
@@ -173,6 +176,24 @@ func runWalk(c *fw.Ctx, cs fw.Case, succ bool) {
 			}
 			walkPlayout(c, r, h.Start, plies, gen.Biases[i%len(gen.Biases)], succ)
 		}
+	case "boardplay":
+		// the game board's own legality filter (Board.PushMove, which the engine's Move and the searches rely
+		// on) along played games: at every ply the pseudo-legal moves it accepts are exactly the legal ones
+		for i := 0; i < cs.N; i++ {
+			var start ref.Pos
+			bias := gen.Biases[i%len(gen.Biases)]
+			switch i % 4 {
+			case 0:
+				start = gen.TacticOK(r, []int{14, 14, 13, 2, 3}[r.Intn(5)])
+				bias = gen.Bias{Capture: 4, Check: 2, Promo: 2, Castle: 2, EP: 400, Quiet: 1, PawnMove: 8}
+			case 1:
+				start = gen.TacticOK(r, r.Intn(gen.NumTactics))
+			default:
+				h := randomHist(r, 0)
+				start = h.Start
+			}
+			walkBoardPlayout(c, r, start, 4+r.Intn(60), bias)
+		}
 	case "shared":
 		// Positions are values; the engines (searches, evaluators, move filters of all four programs) run in
 		// the same process and read the same package-level tables. After each of them has worked on a
@@ -238,6 +259,67 @@ func runWalk(c *fw.Ctx, cs fw.Case, succ bool) {
 				c.Sample(map[string]any{"kind": "tactic", "root": p.FEN()})
 			}
 		}
+	}
+}
+
+// walkBoardPlayout plays a game on a Board and compares, at every ply, what PushMove accepts with the rules.
+func walkBoardPlayout(c *fw.Ctx, r *rand.Rand, start ref.Pos, plies int, bias gen.Bias) {
+	b, err := adapt.Board(zt0, start)
+	if err != nil {
+		c.Violate("newposition", "NewBoard failed for %s: %v", start.FEN(), err)
+		return
+	}
+	g := ref.NewGame(start)
+	var own [2]*ref.Move
+	for i := 0; i <= plies; i++ {
+		legal := g.Cur.LegalMoves()
+		want := map[adapt.MoveTuple]bool{}
+		for _, m := range legal {
+			want[adapt.TupleOfR(m)] = true
+		}
+		c.Eval(1)
+		c.Count("board_plies", 1)
+		c.Distinct("board:" + g.Cur.Key() + fmt.Sprint(len(g.Moves)))
+		if len(g.Moves) > 0 && g.Moves[len(g.Moves)-1].Kind == ref.KEnPassant {
+			c.Count("board_plies_after_ep", 1)
+			if g.Cur.InCheck(g.Cur.White) {
+				c.Count("board_plies_in_check_after_ep", 1)
+			}
+		}
+		got := map[adapt.MoveTuple]bool{}
+		for _, bm := range b.Position().PseudoLegalMoves(b.Turn()) {
+			if b.PushMove(bm) {
+				got[adapt.TupleOfB(bm)] = true
+				b.PopMove()
+			}
+		}
+		if len(legal) == 0 {
+			// (a board adjudicates a move-less position when searched; here nothing was pushed)
+		}
+		for t := range got {
+			if !want[t] {
+				h := gen.Hist{Start: start, Moves: g.Moves}
+				c.Violate("movegen:board-extra", "Board.PushMove accepts %v, which is not legal in %q (game: start %q moves %v)", t, g.Cur.FEN(), start.FEN(), h.MoveStrs())
+				return
+			}
+		}
+		for t := range want {
+			if !got[t] {
+				h := gen.Hist{Start: start, Moves: g.Moves}
+				c.Violate("movegen:board-missing", "Board.PushMove refuses the legal move %v in %q (game: start %q moves %v)", t, g.Cur.FEN(), start.FEN(), h.MoveStrs())
+				return
+			}
+		}
+		if len(legal) == 0 {
+			return
+		}
+		m := gen.Pick(r, &g.Cur, legal, bias, own[i%2])
+		mm := m
+		own[i%2] = &mm
+		if !adapt.Push(b, m) {
+			return // reported above as missing
+		}
+		g.Push(m)
 	}
 }
 
